@@ -36,6 +36,9 @@ type typeSpec struct {
 	rt     reflect.Type
 }
 
+// skipped: the exact tag `yaml:"-"`. (`yaml:"-,omitempty"` is NOT skipped: it names the key "-".)
+func (f fieldSpec) skipped() bool { return f.Key == "-" && !f.Omit }
+
 func (f fieldSpec) primary() string {
 	if f.Key == "" {
 		return strings.ToLower(f.Name)
@@ -48,7 +51,7 @@ func (f fieldSpec) tag() reflect.StructTag {
 	switch {
 	case f.Inline != "":
 		parts = append(parts, `yaml:",inline"`)
-	case f.Key == "-":
+	case f.skipped():
 		parts = append(parts, `yaml:"-"`)
 	case f.Key == "" && !f.Omit:
 		// untagged
@@ -135,6 +138,8 @@ type genState struct {
 	// the only inline shape for which yaml.v3's own semantics are defined.
 	mapInlineOnly bool
 	stats         *stats
+	// dashKeyUsed: some field of the type is tagged `yaml:"-,omitempty"` (at most one per type)
+	dashKeyUsed bool
 }
 
 type stats struct {
@@ -175,13 +180,21 @@ func (g *genState) genType(depth int, allowInline bool) *typeSpec {
 		case 2:
 			f.Key = g.freshKey("k")
 			f.Omit = true
+		case 4:
+			if !g.dashKeyUsed && rapid.IntRange(0, 2).Draw(g.t, "dashkey") == 0 {
+				// the reserved word as a NAME: `yaml:"-,omitempty"` is the key "-", not a skipped field
+				f.Key, f.Omit = "-", true
+				g.dashKeyUsed = true
+			} else {
+				f.Key = g.freshKey("k")
+			}
 		case 3:
 			f.Key = "" // flags only (`yaml:",omitempty"`): the key is still the lower-cased field name
 			f.Omit = true
 		default:
 			f.Key = g.freshKey("k")
 		}
-		if g.aliases && f.Key != "-" && rapid.IntRange(0, 2).Draw(g.t, "hasalias") == 0 {
+		if g.aliases && !f.skipped() && rapid.IntRange(0, 2).Draw(g.t, "hasalias") == 0 {
 			for j, k := 0, rapid.IntRange(1, 3).Draw(g.t, "nalias"); j < k; j++ {
 				f.Aliases = append(f.Aliases, g.freshKey("al"))
 			}
@@ -352,7 +365,7 @@ func (g *genState) docFor(ts *typeSpec, exact bool) *gt.Node {
 			}
 			continue
 		}
-		if f.Key == "-" {
+		if f.skipped() {
 			if rapid.IntRange(0, 2).Draw(g.t, "dashkey") == 0 {
 				ps = append(ps, kvp{strings.ToLower(f.Name), g.anyVal(1)})
 				g.stats.dashKeys++
@@ -370,6 +383,9 @@ func (g *genState) docFor(ts *typeSpec, exact bool) *gt.Node {
 	}
 	for i, n := 0, rapid.IntRange(0, 3).Draw(g.t, "nunknown"); i < n; i++ {
 		k := rapid.SampledFrom([]string{"", "zz", "u1", "u2", "Rest", "rest", "F0", "inline", "-"}).Draw(g.t, "unk")
+		if k == "-" && g.dashKeyUsed {
+			continue // "-" is the name of a field of this type: not an unknown key (and it must stay well-typed)
+		}
 		ps = append(ps, kvp{k, g.anyVal(1)})
 	}
 	m := gt.MapN(true)
@@ -422,7 +438,7 @@ func toSrc(n *gt.Node) any {
 func applyRule(ts *typeSpec, doc *gt.Node, dst reflect.Value, st *stats) error {
 	consumed := map[string]bool{}
 	for i, f := range ts.Fields {
-		if f.Inline != "" || f.Key == "-" {
+		if f.Inline != "" || f.skipped() {
 			continue
 		}
 		key := f.primary()
@@ -659,7 +675,7 @@ func prefill(ts *typeSpec, v reflect.Value, doc *gt.Node, seed int) {
 	for i, f := range ts.Fields {
 		fv := v.Field(i)
 		supplied := false
-		if doc != nil && f.Inline == "" && f.Key != "-" {
+		if doc != nil && f.Inline == "" && !f.skipped() {
 			if x, ok := doc.Get(f.primary()); ok && x.Kind != gt.Null {
 				supplied = true
 			}
